@@ -212,6 +212,21 @@ Qed.
 Lemma upd_same l i v : i < lenN l -> nthN i l = v -> upd l i v = l.
 Proof. intros H <-. now apply upd_id. Qed.
 
+Lemma blit_blit_adjacent l i a1 a2 :
+  i + lenN a1 <= lenN l -> blit (blit l i a1) (i + lenN a1) a2 = blit l i (a1 ++ a2).
+Proof.
+  intros H.
+  transitivity (takeN (i + lenN a1) (blit l i a1) ++ a2 ++ dropN (i + lenN a1 + lenN a2) (blit l i a1)); [reflexivity|].
+  rewrite (takeN_blit_cover l i a1) by lia.
+  rewrite (dropN_blit_after l i a1) by lia.
+  unfold blit. rewrite lenN_app, <- !app_assoc. do 3 f_equal. f_equal. lia.
+Qed.
+Lemma upd_upd_adjacent l i x y : i + 1 <= lenN l -> upd (upd l i x) (i + 1) y = blit l i [x; y].
+Proof.
+  intros H. unfold upd. replace (i + 1) with (i + lenN [x]) by (rewrite lenN_cons, lenN_nil; lia).
+  rewrite blit_blit_adjacent; [reflexivity|]. rewrite lenN_cons, lenN_nil. lia.
+Qed.
+
 (* ---- cstr and NUL-freeness *)
 Definition nulfree (l : list N) : Prop := Forall (fun x => x <> 0) l.
 
